@@ -217,7 +217,9 @@ func verifyFunction(w *World, ss *SpecSet, fn *ssa.Function, spec *FuncSpec) (re
 			if c.Name != "" {
 				name = "post:" + c.Name
 			}
+			e.onlyProps = c.OnlyProps
 			e.oblige(fr, rst, name, "postcondition: "+c.Src, pos, v.T)
+			e.onlyProps = nil
 		}
 		e.checkGuarantees(fr, rst, pos)
 		// reachability cover of this return
